@@ -251,7 +251,9 @@ EventBad(t, l) ==
   (IF ok /\ Len(post) # Len(r.convs) THEN {<<"nconv", k>>} ELSE {}) \cup
   \* the converter created / modified by the call
   (IF ok /\ r.tgt # 0 /\ r.tgt <= Len(post) /\ "inexact" \notin DOMAIN ev
-   THEN {<<"post", k, x>> : x \in ConvDiff(r.convs[r.tgt], post[r.tgt])} ELSE {}) \cup
+   THEN {<<"post", k, x>> : x \in ConvDiff(r.convs[r.tgt], post[r.tgt]) \
+                                   \* no property fixes the delimiter of a DERIVED converter (the code uses the default)
+                                   (IF k \in {"chain", "sub", "remap_curie", "remap_uri", "rewire"} THEN {"delim"} ELSE {})} ELSE {}) \cup
   \* every other converter is untouched (C10), component by component
   UNION {{<<"frame", k, x>> : x \in ConvDiff(pre[i], post[i])} :
             i \in {i \in 1..Len(pre) : i <= Len(post) /\ i # r.tgt}} \cup
